@@ -78,6 +78,12 @@ pub trait Scenario: Send + Sync + 'static {
     fn key_context(&self, _p: &Self::P) -> String {
         String::new()
     }
+    /// Is "operation `op` of the code under test never returns" something this scenario's *property* speaks about? (When it
+    /// is not, the run is counted under `incidental` in the evidence and nothing is reported: a check must not demand more
+    /// than its property states.)
+    fn livelock_in_scope(&self, _p: &Self::P, _op: &str) -> bool {
+        true
+    }
 }
 
 #[derive(Clone, Debug, Serialize, Deserialize)]
@@ -457,7 +463,11 @@ pub fn run_batch<S: Scenario>(scn: &Arc<S>, cfg: &CheckCfg, tag: &str, budget: D
                         if out.violations.is_empty() {
                             if let Some(a) = &out.aborted {
                                 if let Some(op) = livelocked_op(a) {
-                                    violations.push(Violation { property: scn.property().into(), oracle: "operation_never_returns".into(), key: format!("{}/livelock/{}{}", scn.name(), scn.key_context(&p), op), detail: a.clone() });
+                                    if scn.livelock_in_scope(&p, &op) {
+                                        violations.push(Violation { property: scn.property().into(), oracle: "operation_never_returns".into(), key: format!("{}/livelock/{}{}", scn.name(), scn.key_context(&p), op), detail: a.clone() });
+                                    } else {
+                                        *stats.incidental.entry(format!("outside {}: {}/livelock/{}{}", scn.property(), scn.name(), scn.key_context(&p), op)).or_insert(0) += 1;
+                                    }
                                 }
                             }
                         }
